@@ -439,21 +439,24 @@ pub fn replay(b: &Value, out: &mut Out, seed: u64) -> (u64, bool, bool) {
     let mut o = NodeOpts::server(Ipv4Addr::new(45, 77, 1, 1), &[]);
     o.settings = Some(settings);
     let n = sim.add_node(o);
-    if b["rekey"].as_bool().unwrap_or(false) {
-        // the node learns its public address from a peer, confirms it with the ping it sends itself and takes the BEP42 id for
-        // it (its random id is not valid for 45.77.1.1) - before the history starts: the configured filter and capacities
-        // are those of the node, whatever id it has
+    // the node learns its public address from a peer, confirms it with the ping it sends itself and takes the BEP42 id for it (its
+    // random id is not valid for 45.77.1.1); returns whether the id changed
+    let rekey_dance = |sim: &mut Sim| -> bool {
         use crate::fakenet::*;
         let id0 = sim.snapshot(n).map(|s| s.id.clone()).unwrap_or_default();
         let pid = crypto::sha1(b"helper peer");
-        let net = FakeNet::install(&mut sim, &[pid], Box::new(|_, _, _| Reply::Default));
+        let net = FakeNet::install(sim, &[pid], Box::new(|_, _, _| Reply::Default));
         let paddr: SocketAddrV4 = net.bootstrap()[0].parse().expect("addr");
         let _ = sim.exchange(n, paddr, &krpc::find_node(77, &pid, &pid, false).encode());
         let mut call = sim.call_get(n, crate::calls::GetKind::FindNode, crypto::sha1(b"some target"), "warmup");
         sim.poke(n);
         sim.run_calls(&mut [&mut call], 5000);
         sim.run_for(1500);
-        let rekeyed = sim.snapshot(n).map(|s| s.id != id0).unwrap_or(false);
+        sim.snapshot(n).map(|s| s.id != id0).unwrap_or(false)
+    };
+    if b["rekey"].as_bool().unwrap_or(false) {
+        // before the history starts: the configured filter and capacities are those of the node, whatever id it has
+        let rekeyed = rekey_dance(&mut sim);
         out.line(&json!({"e":"note","b":b["b"],"rekeyed":rekeyed}));
     }
     // a second, unrelated server whose token for address "a" is the "foreign" token
@@ -490,6 +493,18 @@ pub fn replay(b: &Value, out: &mut Out, seed: u64) -> (u64, bool, bool) {
     for (i, step) in steps.iter().enumerate() {
         let mut r = step.clone();
         let kind = r["kind"].as_str().unwrap_or("").to_string();
+        if kind == "rekey" {
+            // in the middle of a history (right after a request, so that no token rotation is due while it lasts): for the model
+            // nothing happens but the time that passes
+            let t0 = sim.now_ns();
+            let rekeyed = rekey_dance(&mut sim);
+            let ms = (sim.now_ns() - t0) / crate::sim::MS;
+            ctx.tokens.push(None);
+            let snap = sim.snapshot(n).map(|s| projection(&ctx, &s.server)).unwrap_or(json!(null));
+            out.line(&json!({"e":"req","r":{"kind":"advance","ms":ms,"rekeyed":rekeyed},"o":{"kind":"none","code":0,"val":"","k":"","seq":-1,"peers":[],"tok":false},"A":snap}));
+            count += 1;
+            continue;
+        }
         if kind == "advance" {
             v::advance(Duration::from_millis(r["ms"].as_u64().unwrap_or(0)));
             ctx.tokens.push(None);
@@ -766,6 +781,14 @@ pub fn rekey_probes(id0: u64) -> Vec<Value> {
         "steps": [json!({"kind":"ping","from":a}), get(&a, "k1"), json!({"kind":"findnode","from":a}), json!({"kind":"getpeers","from":a,"t":"h1"})]}));
     v.push(json!({"b": id0 + 1, "rekey": true, "filter": "denyb", "caps": {"imm": 1000, "mut": 1000, "hash": 2000, "peers": 500},
         "steps": [get(&bb, "k1"), json!({"kind":"ping","from":bb}), get(&a, "k1"), put(&a, "k1", 2), get(&bb, "k1"), get(&a, "k1")]}));
+    // a re-key in the middle of a history, seconds after a scheduled token rotation: a token that is a few seconds old stays good
+    // (lookup at 4:59, another request at 5:01, the re-key, the write)
+    for early in [299_000u64, 200_000, 10_000] {
+        v.push(json!({"b": id0 + 3 + early / 100_000, "filter": "allow", "caps": {"imm": 1000, "mut": 1000, "hash": 2000, "peers": 500},
+            "steps": [json!({"kind":"advance","ms":early}), get(&a, "k1"), json!({"kind":"advance","ms":302_000 - early}), json!({"kind":"ping","from":bb}),
+                      json!({"kind":"advance","ms":1000}), json!({"kind":"rekey"}), put(&a, "k1", 1), get(&a, "k1"),
+                      json!({"kind":"announce","from":a,"tok":{"kind":"issued","step":1},"t":"h1","nid":"n1","port":7,"implied":false})]}));
+    }
     v.push(json!({"b": id0 + 2, "rekey": true, "filter": "allow", "caps": {"imm": 1, "mut": 1, "hash": 1, "peers": 1},
         "steps": [get(&a, "k1"), put(&a, "k1", 0), put(&a, "k2", 0), get(&a, "k1"), get(&a, "k2"),
                   json!({"kind":"announce","from":a,"tok":{"kind":"issued","step":0},"t":"h1","nid":"n1","port":7,"implied":false}),
